@@ -53,6 +53,11 @@ DoX(op) ==
 NextX ==
     \/ /\ Mode = "perm" /\ Len(steps) \in {1, 2} /\ LastOK /\ LastK \in {"New", "Slice"}
        /\ \E p \in AxisLists(Len(live[V].shape)) : DoX(Op("TCalc", V, p))
+    \* a second (and third) transposition of the tensor whose transposition is still pending: the calculator
+    \* is applied to the access pattern the first one left behind (involutions, cycles, undo and non-undo)
+    \/ /\ Mode = "perm" /\ Len(steps) \in {2, 3, 4} /\ LastOK /\ LastK = "TCalc"
+       /\ Cardinality({i \in 1..Len(steps) : steps[i].op.k = "TCalc"}) <= 2
+       /\ \E p \in Perms(Len(live[V].shape)) : DoX(Op("TCalc", steps[Len(steps)].op.h, p))
     \/ Next
 
 Spec == Init /\ [][NextX]_vars
